@@ -61,6 +61,7 @@ func init() {
 			{ID: "C02.R17", Floor: 12, Run: c11r2, Text: "removal events precede the removal (= C11.R2): the handle is still alive while its EntityRemoved event is delivered; recycling first makes the entity dead inside its own removal event"},
 			{ID: "C02.R18", Floor: 1, Run: deactivateOnlyOnRetire, Text: "a table is marked inactive only by the retiring method (= C03.R13): an inactive table that is still mapped hides its entities from filter-based removal and from Reset"},
 			{ID: "C02.R19", Floor: 1, Run: marshalAllPaths, Text: "entity JSON encodes id and generation on every path (= C17.R8): a fast path for id 0 flattens the pool's sentinel generation"},
+			{ID: "C02.R20", Floor: 4, Run: queryIntParamsRangeChecked, Text: "batch sizes are not truncated (= C10.R15): creations minus removals is the number of alive entities for every batch size"},
 		},
 	})
 }
